@@ -61,6 +61,8 @@ FRAGS_ABS = {
     "GammaF": "fragment GammaF on User { id }",
     # base-class fragments whose sub-fields are of abstract type (the generated nested class needs __typename from the server)
     "RelF": "fragment RelF on User { related { id } }",
+    # fragments that get UNPACKED where they are spread (union type condition / spread at another type) and hold an abstract sub-field
+    "ThingRelF": "fragment ThingRelF on Thing { ... on User { related { id } fav { ... on Dog { barks } } } }",
     "FavF": "fragment FavF on User { fav { ... on Dog { barks } } name }",
 }
 
@@ -93,10 +95,10 @@ TARGETS = [
 
 # combinations that are always part of the family (not left to sampling): an inline fragment together with a named spread on a
 # different implementing type, a spread on the position's own type together with one on a subtype, nested spreads + plain fields
-MUST_NODE = [("id", "... on Bot { model }", "...UserF"), ("... on User { name age }", "...BotF"), ("... on Dog { barks }", "...UserF", "...BotF"),
+MUST_NODE = [("...RelF",), ("...RelF", "id"), ("id", "... on Bot { model }", "...UserF"), ("... on User { name age }", "...BotF"), ("... on Dog { barks }", "...UserF", "...BotF"),
              ("...NodeF", "...UserF"), ("...NodeF", "... on Bot { model }"), ("...NamedF", "...BotF", "id"), ("...NodeInl2F", "...BotF"),
              ("id", "... on Aged { age }"), ("... on Aged { age }", "... on Bot { model }")]
-MUST_THING = [("... on Bot { model }", "...UserF"), ("... on User { name age }", "...DogF"), ("...ThingUF", "...DogF"), ("... on Named { name }", "...DogF"), ("... on Aged { age }", "...DogF")]
+MUST_THING = [("...ThingRelF",), ("...RelF", "...DogF"), ("... on Bot { model }", "...UserF"), ("... on User { name age }", "...DogF"), ("...ThingUF", "...DogF"), ("... on Named { name }", "...DogF"), ("... on Aged { age }", "...DogF")]
 MUST_USER = [("_tag", "_label: name", "_buddy: bestFriend { _tag }"), ("bf: bestFriend { id }", "bf2: bestFriend { name age }"), ("rel1: related { id }", "rel2: related { ... on Bot { model } }", "bestFriend { id }"), ("...RelF",), ("...FavF", "id"), ("...AlphaF",), ("...AlphaF", "name"), ("...UserF", "...NodeF", "id"), ("...UserDeepF", "pet { barks }"), ("...NestF", "...NamedF"), ("related { ... on Bot { model } }", "related { id }")]
 
 
@@ -278,6 +280,7 @@ FRAG_OPS = [
     "me { ...ZU ...UA }", "thing { ... on User { ...UE } }", "user { ...UA @include(if: true) }", "user { ...AF }", "me { ...AG }", "users { ...AF ...AG }",
     "node { id ... on Bot { model } ...UE }", "nodesOpt { ... on Dog { barks } ...UB }", "thing { ... on Bot { model } ...UC }", "named { ... on Bot { model } ...UE ...MA }",
     "user { ... on Node { ...NA } }", "me { name ... on Named { ...MA } ... on User { ...ZU } }", "node { ... on Node { ...NA } ... on User { ...UB } }",
+    "named { ...NA name }", "named { id ...NB }",
     "user { ...UA ...UF }", "me { ...AF ...UB name }", "users { ...ZU ...AG }",
     "user { ...UN }", "me { id ...UN }", "users { ...UM }", "node { ... on User { ...UN } }",
 ]
